@@ -3,6 +3,6 @@
    interpreter applied to the implementation's SQL.  Same directives as ExtractLogql.v. *)
 From Coq Require Import Extraction ExtrOcamlBasic ExtrOcamlString.
 From Qryn Require Import lib.Strs model.Sql model.SqlRender model.Logql model.LogqlPlan
-  model.PromSelect model.PromSel model.ProfSel model.PromSem model.ProfSem model.PromCase model.PromDown model.PromRegex.
-Extraction "promsel.ml" pcase_sql fcase_sql labels_fetch render scase_mismatch scase_spec_violation scase_dup_violation select_series
+  model.PromSelect model.PromSel model.ProfSel model.PromSem model.ProfSem model.PromCase model.PromDown model.PromRegex model.PromSelDup.
+Extraction "promsel.ml" pcase_sql fcase_sql labels_fetch render scase_mismatch scase_spec_violation scase_dup_violation scase_dup_exact_violation select_series
   querier_mr sem_verdict psem_verdict engine_rows multi_scase eval_prom expected_rows down_verdict re_case_ok re_case_answers.
